@@ -10,6 +10,11 @@ Lifted shape (anything else is refused):
             return <SEP>.join([ name.replace(o1, n1).replace(o2, n2)...  for name in names ])
         return np.array([_join_names(row) for row in feature_columns.astype(str)])
 
+The WHOLE body of `_merge_columns` is censused (`_census`): besides the inner `def _join_names` and the single final `return`
+only `if not isinstance(<parameter>, T): raise ...` guards are accepted; a second `return` / `yield` at any depth (an early
+exit that bypasses the escaping, seeded change C13a), any assignment, loop, `try`, `with`, a rebinding of the parameter, of
+`_join_names` or (anywhere in the module) of `_MERGE_COLUMN_SEPARATOR`, or a second definition of `_merge_columns` is refused.
+
 where every o_i is a one-character string and every n_i a string, each written as a string constant,
 the name `_MERGE_COLUMN_SEPARATOR`, or an f-string of those.  The replacements are emitted IN THE ORDER
 THE CODE APPLIES THEM (innermost call first); the Lean model folds them in that order, so dropping one,
@@ -56,11 +61,93 @@ def _lean_chars(s):
     return "[" + ", ".join(_lean_char(c) for c in s) + "]"
 
 
+def _is_type_guard(node, arg):
+    """`if not isinstance(<arg>, <type expr>): raise <exc>(...)` -- rejects an argument, never produces a result"""
+    if not (isinstance(node, ast.If) and not node.orelse and len(node.body) == 1 and isinstance(node.body[0], ast.Raise)):
+        return False
+    t = node.test
+    if not (isinstance(t, ast.UnaryOp) and isinstance(t.op, ast.Not)):
+        return False
+    c = t.operand
+    return (isinstance(c, ast.Call) and isinstance(c.func, ast.Name) and c.func.id == "isinstance" and not c.keywords
+            and len(c.args) == 2 and isinstance(c.args[0], ast.Name) and c.args[0].id == arg
+            and not any(isinstance(n, (ast.Call, ast.NamedExpr, ast.Await, ast.Yield, ast.YieldFrom)) for n in ast.walk(c.args[1])))
+
+
+def _census(merge_fn, arg):
+    """Statement census of the WHOLE body of `_merge_columns` (after normalisation: docstrings, logger calls and new pure
+    temporaries are gone).  Accepted: any number of `if not isinstance(<arg>, T): raise ...` guards, exactly one inner
+    `def _join_names`, and one final `return`; nothing else at any depth -- in particular no second `return` / `yield`
+    anywhere (an early `return` in a branch would bypass the escaping: seeded change C13a), no assignment, loop, `with`,
+    `try`, `global` / `nonlocal`, no rebinding of the parameter or of `_join_names`, no decorator on either function and no
+    default / extra parameters."""
+    def refuse(msg):
+        raise translate.Untranslatable(f"{REL}: _merge_columns: {msg}")
+    a = merge_fn.args
+    if (len(a.args) != 1 or a.posonlyargs or a.kwonlyargs or a.vararg or a.kwarg or a.defaults or a.kw_defaults
+            or merge_fn.decorator_list):
+        refuse("signature is not a single plain parameter without decorator")
+    join_fn = None
+    ret = None
+    for i, node in enumerate(merge_fn.body):
+        if _is_type_guard(node, arg):
+            continue
+        if isinstance(node, ast.FunctionDef) and node.name == "_join_names":
+            if join_fn is not None:
+                refuse("_join_names is defined twice")
+            ja = node.args
+            if (len(ja.args) != 1 or ja.posonlyargs or ja.kwonlyargs or ja.vararg or ja.kwarg or ja.defaults
+                    or ja.kw_defaults or node.decorator_list):
+                refuse("_join_names signature is not a single plain parameter without decorator")
+            join_fn = node
+            continue
+        if isinstance(node, ast.Return) and i == len(merge_fn.body) - 1:
+            ret = node
+            continue
+        refuse(f"statement not understood at line {getattr(node, 'lineno', '?')}: {ast.dump(node)[:100]} "
+               "(accepted: isinstance guards that raise, def _join_names, one final return)")
+    if join_fn is None or ret is None:
+        refuse("no inner _join_names / final return")
+    # nothing hidden deeper: exactly one return in the outer function (the final one), one in _join_names
+    outer_nodes = [n for st in merge_fn.body if st is not join_fn for n in ast.walk(st)]
+    bad = (ast.Yield, ast.YieldFrom, ast.Await, ast.Global, ast.Nonlocal, ast.NamedExpr, ast.Lambda, ast.FunctionDef,
+           ast.AsyncFunctionDef, ast.ClassDef)
+    if sum(isinstance(n, ast.Return) for n in outer_nodes) != 1:
+        refuse("more than one return")
+    for n in outer_nodes + list(ast.walk(join_fn))[1:]:
+        if isinstance(n, bad):
+            refuse(f"{type(n).__name__} at line {getattr(n, 'lineno', '?')}")
+    for n in ast.walk(merge_fn):
+        if isinstance(n, ast.Name) and isinstance(n.ctx, (ast.Store, ast.Del)) and n.id in (arg, "_join_names", join_fn.args.args[0].arg):
+            refuse(f"`{n.id}` is rebound")
+    return join_fn, ret
+
+
+def _module_census(tree):
+    """`_MERGE_COLUMN_SEPARATOR` is bound exactly once in the module (at top level) and `_merge_columns` defined once."""
+    binds = [n for n in ast.walk(tree) if isinstance(n, ast.Name) and isinstance(n.ctx, (ast.Store, ast.Del))
+             and n.id == "_MERGE_COLUMN_SEPARATOR"]
+    top = [n for n in tree.body if isinstance(n, ast.Assign) and len(n.targets) == 1 and isinstance(n.targets[0], ast.Name)
+           and n.targets[0].id == "_MERGE_COLUMN_SEPARATOR"]
+    if len(binds) != 1 or len(top) != 1:
+        raise translate.Untranslatable(f"{REL}: _MERGE_COLUMN_SEPARATOR is bound {len(binds)} times (need exactly one "
+                                       "top-level assignment)")
+    if any(isinstance(n, ast.Global) and "_MERGE_COLUMN_SEPARATOR" in n.names for n in ast.walk(tree)):
+        raise translate.Untranslatable(f"{REL}: `global _MERGE_COLUMN_SEPARATOR`")
+    defs = [n for n in ast.walk(tree) if isinstance(n, (ast.FunctionDef, ast.AsyncFunctionDef, ast.ClassDef))
+            and n.name == "_merge_columns"]
+    names = [n for n in ast.walk(tree) if isinstance(n, ast.Name) and isinstance(n.ctx, (ast.Store, ast.Del))
+             and n.id == "_merge_columns"]
+    if len(defs) != 1 or names or not any(d is n for d in defs for n in tree.body):
+        raise translate.Untranslatable(f"{REL}: _merge_columns is not defined exactly once at module level")
+
+
 @translate.lifter
 def lift_merge(repo):
     src = translate._read(repo, REL)
     # new pure temporaries inlined, locals (also those of the nested _join_names) alpha-renamed to the pinned names
     tree = normalize.canon_tree(normalize.parse(src), PINNED, extra_funcs=("_join_names",), extra_methods=("replace", "join"))
+    _module_census(tree)
     env = {}
     merge_fn = None
     for node in tree.body:
@@ -77,15 +164,7 @@ def lift_merge(repo):
     if len(sep) != 1:
         raise translate.Untranslatable(f"{REL}: separator {sep!r} is not a single character")
     arg = merge_fn.args.args[0].arg
-    join_fn = None
-    ret = None
-    for node in merge_fn.body:
-        if isinstance(node, ast.FunctionDef) and node.name == "_join_names":
-            join_fn = node
-        if isinstance(node, ast.Return):
-            ret = node
-    if join_fn is None or ret is None:
-        raise translate.Untranslatable(f"{REL}: _merge_columns has no inner _join_names / return")
+    join_fn, ret = _census(merge_fn, arg)
 
     # outer return: np.array([_join_names(row) for row in <arg>.astype(str)])
     def outer_ok(r):
